@@ -364,6 +364,15 @@ where
                 if di == 0 {
                     // res = pmat * ai_dft
                     self.vmp_apply_dft_to_dft(res, &ai_dft, pmat, 0, scratch_2);
+                    // The limbs skipped at di = 0 are accumulated into for di > 0: start them from zero
+                    // (res may come from scratch and hold anything).
+                    let written: usize = res.size();
+                    res.set_size(pmat.size());
+                    for col in 0..cols_out {
+                        for j in written..pmat.size() {
+                            poulpy_hal::layouts::ZnxZero::zero_at(res, col, j);
+                        }
+                    }
                 } else {
                     // Overwrite tmp with shifted product, then fold into res.
                     // This avoids scattered read-add-write on the res DFT buffer.
